@@ -292,7 +292,7 @@ int main(int argc, char** argv)
             ? opts.getStepsPerTrev()*f_rev/fs
             : std::max(opts.getStepsPerTsync(),1u);
     const auto outstep = opts.getOutSteps();
-    const auto rotations = static_cast<float>(opts.getNRotations());
+    const auto rotations = opts.getNRotations();
 
     const auto calc_damp = E0*physcons::e/W0/f_rev;
 
@@ -362,7 +362,12 @@ int main(int argc, char** argv)
      */
     const meshaxis_t angle = two_pi<double>()/steps;
 
-    uint32_t laststep=std::ceil(steps*rotations);
+    /* number of steps that covers the requested time: steps*rotations exceeds
+     * a whole number by rounding noise only for inputs like 100*0.07,
+     * which must not add a step (a run split at T1 would otherwise take
+     * more steps than the uninterrupted one)
+     */
+    uint32_t laststep=std::ceil(steps*rotations*(1.0-1e-12));
 
     VERIF_POINT("setup:scaling_done");
     std::string startdistfile = opts.getStartDistFile();
